@@ -11,5 +11,5 @@ CONSTANTS
   SidPairs <- NoSid
   TamperMax = 3
 INVARIANTS TypeOK PRedactedIffMismatch PRedactedNoop PRedactedForm PIntact PIdSigIff PSigsTogether
-  PSpellingNeutral PCaseIsAnotherKey PVariantIsAnotherKey PDupOneReading PDupGenuineOnly PDupNoReadingHash PDupForgerOnly PDupSummaries Emit
+  PSpellingNeutral PCaseIsAnotherKey PVariantIsAnotherKey PDupOneReading PDupGenuineOnly PDupNoReadingHash PDupForgerOnly PDupSummaries PSizeOfTheEvent PBulkStrippedNeutral PBulkRedactable PBulkIsOverOnTheWire Emit
 CHECK_DEADLOCK FALSE
